@@ -19,8 +19,15 @@ let int_of_nat n = let rec go acc = function O -> acc | S m -> go (acc + 1) m in
 let split_on s sep = Str.split (Str.regexp_string sep) s
 let trim = String.trim
 
-let cmp_min a b = z_of_int (compare (a : int) b)
-let cmp_max a b = z_of_int (compare (b : int) a)
+(* the comparators of the harness, value for value (the Go comparator contract is
+   negative/zero/positive; "minm" etc. return magnitudes) *)
+let cmp_of = function
+  | "max" -> (fun (a : int) (b : int) -> z_of_int (compare b a))
+  | "minm" -> (fun a b -> z_of_int (a - b))
+  | "maxm" -> (fun a b -> z_of_int (b - a))
+  | "min3" -> (fun a b -> z_of_int (3 * (a - b)))
+  | "max3" -> (fun a b -> z_of_int (3 * (b - a)))
+  | _ -> (fun (a : int) (b : int) -> z_of_int (compare a b))
 let eqv (a : int) (b : int) = a = b
 let eqe (a : int * int) (b : int * int) = a = b
 
@@ -72,6 +79,14 @@ let parse_out opk res =
     | "S" -> ONat (nat_of_int (int_of_string res))
     | _ -> OBool (res = "t")
 
+(* MISMATCH lines are printed at the end, property-level (api) ones first: the check shrinks and
+   reports only the first few mismatching cases of a batch, and a case in which only the layout
+   differs must not hide a later case with a failing input. *)
+let api_buf = Buffer.create 4096 and fid_buf = Buffer.create 4096
+let emit kind text =
+  let b = if kind = "api" then api_buf else fid_buf in
+  if Buffer.length b < 4_000_000 then (Buffer.add_string b text; Buffer.add_char b '\n')
+
 let () =
   let cases = ref 0 and ops = ref 0 and nontrivial = Hashtbl.create 4096 in
   let by_impl = Hashtbl.create 8 in
@@ -98,12 +113,12 @@ let () =
                  let n = int_of_string (trim a) and d = trim b in
                  let m = int_of_nat (max_degree_z (z_of_int n)) in
                  if d <> "?" && string_of_int m <> d then
-                   Printf.printf "MISMATCH line=%d op=%d kind=fidelity what=maxDegree(%d): implementation (float64) %s, exact model %d\n"
-                     !lineno !opno n d m
+                   emit "fidelity" (Printf.sprintf "MISMATCH line=%d op=%d kind=fidelity what=maxDegree(%d): implementation (float64) %s, exact model %d"
+                     !lineno !opno n d m)
                | _ -> ()) body
          end else begin
            let impl = match hw.(0) with "BIN" -> Binary | "BNM" -> Binomial | _ -> Fibonacci in
-           let cmp = if hw.(1) = "max" then cmp_max else cmp_min in
+           let cmp = cmp_of hw.(1) in
            let sizes = List.map int_of_string (List.tl (List.tl (Array.to_list hw))) in
            bump by_impl (hw.(0) ^ "_" ^ hw.(1)) 1;
            if List.length sizes > !max_pool then max_pool := List.length sizes;
@@ -125,7 +140,7 @@ let () =
                  let arg j = int_of_string toks.(j) in
                  let live_model = (match List.nth_opt !mp i with Some (Some h) -> Some h | _ -> None) in
                  let mism kind what =
-                   Printf.printf "MISMATCH line=%d op=%d kind=%s what=%s %s %s: %s\n" !lineno !opno kind hw.(0) hw.(1) op what in
+                   emit kind (Printf.sprintf "MISMATCH line=%d op=%d kind=%s what=%s %s %s: %s" !lineno !opno kind hw.(0) hw.(1) op what) in
                  match k with
                  | "DUMP" | "V" ->
                    incr dumps;
@@ -213,6 +228,7 @@ let () =
        end
      done
    with End_of_file -> ());
+  print_string (Buffer.contents api_buf); print_string (Buffer.contents fid_buf);
   Printf.printf "STAT cases=%d\nSTAT ops=%d\nSTAT nontrivial=%d\n" !cases !ops (Hashtbl.length nontrivial);
   Printf.printf "STAT max_heap_size=%d\nSTAT max_pool=%d\nSTAT max_ops_per_case=%d\n" !max_size !max_pool !max_ops;
   Printf.printf "STAT binary_grow_resizes=%d\nSTAT binary_shrink_resizes=%d\nSTAT merges_of_nonempty_heaps=%d\n" !grow !shrink !merges;
